@@ -208,7 +208,7 @@ impl<'c, Q: Queue> Interp<'c, Q> {
                         && matches!(op, "iter" | "ref_into_iter" | "into_iter" | "drain" | "sorted_iter" | "adaptor"))
             }
             14 => g == Group::EqClone || (matches!(op, "eq" | "clone") && g != Group::Tables),
-            15 => g == Group::Serde || (op == "serde" && g != Group::Tables),
+            15 => g == Group::Serde || (matches!(op, "serde" | "deser_seq") && g != Group::Tables),
             16 => (matches!(op, "clear" | "drain") || self.after_special) && g != Group::Tables,
             17 => {
                 g == Group::Cap
